@@ -47,10 +47,30 @@ fn expected(built: &Built, key: Option<usize>, ops: &[Op], hooks: &mut Vec<usize
     let _ = key;
 }
 
-pub fn eval_case(ops: &[Op], drv: Option<&mut Drv>, pool: &Pool, rng: &mut Rng) -> LOut {
+pub fn eval_case(ops: &[Op], drv: Option<&mut Drv>, pool: &Pool, rng: &mut Rng, direct: Option<bool>) -> LOut {
     let mut out = LOut { impl_v: vec![], model_v: vec![], key: String::new(), nontrivial: false, sample: String::new() };
     let mut drv = drv;
     let shared = Shared::new(Op::max_tag(ops) + 1);
+    // half of the cases register the library's `MultiDispatcher` directly (no event wrapper)
+    let drawn = rng.chance(50);
+    let direct = direct.unwrap_or(drawn);
+    shared.direct_multi.store(direct, SeqCst);
+    // the library's controller keeps `BatchController::running_time`'s default (VeryLong)
+    fn very_long(ops: &[Op]) -> Vec<Op> {
+        ops.iter()
+            .map(|o| match o {
+                Op::Batch { tag, name, deps, ctl, t, n, inner } => Op::Batch { tag: *tag, name: name.clone(), deps: deps.clone(), ctl: *ctl, t: if ctl_is_multi(*ctl) { 5 } else { *t }, n: *n, inner: very_long(inner) },
+                o => o.clone(),
+            })
+            .collect()
+    }
+    let ops_direct;
+    let ops: &[Op] = if direct {
+        ops_direct = very_long(ops);
+        &ops_direct
+    } else {
+        ops
+    };
     let mut built = build_case(ops, drv.as_deref_mut(), shared.clone(), pool, false);
     for d in std::mem::take(&mut built.diffs) {
         out.model_v.push(("outcome".into(), d));
@@ -190,7 +210,7 @@ pub fn run(args: &Args, rep: &mut Report) {
     let cases = args.num("cases", 200);
     let mut drv = Drv::spawn(&args.str("driver", "/verif/lean/.lake/build/bin/driver"));
     let pool = make_pool(2);
-    rep.rule = "generated registration sequences (batches nested 0-3 with all six controller data kinds, thread-local systems, failed registrations), worlds with a random subset of resources pre-populated with non-default values, setup called 1-3 times interleaved with inserts/removes, then dispose; distinct = distinct (hook set, created set); non-trivial = at least two systems and a batch or thread-local system".into();
+    rep.rule = "generated registration sequences (batches nested 0-3 with all eleven controller kinds incl. the library's MultiDispatcher, thread-local systems, failed registrations), worlds with a random subset of resources pre-populated with non-default values, setup called 1-3 times interleaved with inserts/removes, then dispose; distinct = distinct (hook set, created set); non-trivial = at least two systems and a batch or thread-local system".into();
     let mut todo: Vec<(String, Vec<Op>, u64)> = vec![];
     if let Some(f) = args.get("replay") {
         let text = std::fs::read_to_string(&f).expect("replay file");
@@ -219,9 +239,12 @@ pub fn run(args: &Args, rep: &mut Report) {
     }
     let mut reported: std::collections::BTreeSet<String> = Default::default();
     for (label, ops, stream) in todo {
+      // replayed / corpus cases run both ways of registering a `MultiDispatcher`
+      let variants: Vec<Option<bool>> = if label.starts_with("gen:") { vec![None] } else { vec![Some(false), Some(true)] };
+      for direct in variants {
         drv.begin_case();
         let mut rng = Rng::new(seed ^ 0x11fe, stream);
-        let o = eval_case(&ops, Some(&mut drv), &pool, &mut rng);
+        let o = eval_case(&ops, Some(&mut drv), &pool, &mut rng, direct);
         rep.case(&o.key, o.nontrivial);
         rep.add("registrations", Op::count(&ops) as u64);
         rep.maxi("max_batch_depth", Op::depth(&ops) as u64);
@@ -235,10 +258,10 @@ pub fn run(args: &Args, rep: &mut Report) {
             if reported.insert(format!("impl:{}", p)) {
                 let small = shrink(&ops, &mut |c: &[Op]| {
                     let mut r = Rng::new(seed ^ 0x11fe, stream);
-                    !eval_case(c, None, &pool, &mut r).impl_v.is_empty()
+                    !eval_case(c, None, &pool, &mut r, direct).impl_v.is_empty()
                 });
                 let mut r = Rng::new(seed ^ 0x11fe, stream);
-                let what2 = eval_case(&small, None, &pool, &mut r).impl_v.first().map(|x| x.1.clone()).unwrap_or_else(|| what.clone());
+                let what2 = eval_case(&small, None, &pool, &mut r, direct).impl_v.first().map(|x| x.1.clone()).unwrap_or_else(|| what.clone());
                 rep.violate(p, "impl", "", format!("{} [{}]", what2, label), case_lines(&small));
             }
         }
@@ -247,5 +270,6 @@ pub fn run(args: &Args, rep: &mut Report) {
                 rep.violate(&format!("MODEL:{}", a), "model", "", format!("{} [{}]", what, label), case_lines(&ops));
             }
         }
+      }
     }
 }
